@@ -103,6 +103,31 @@ class _Subst(ast.NodeTransformer):
         return node      # deferred body: leave untouched
 
 
+def resolve_consts(node, scope):
+    """Replace names/attributes that fold to scalar constants in ``scope`` by literals, so that an
+    expression can be moved into another function's scope (inlining) without losing their meaning."""
+    class T(ast.NodeTransformer):
+        def _try(self, n):
+            v = fold(n, scope)
+            if v is not UNKNOWN and isinstance(v, (int, float, str, bool, bytes)):
+                return ast.copy_location(ast.Constant(value=v), n)
+            return None
+
+        def visit_Name(self, n):
+            return self._try(n) or n
+
+        def visit_Attribute(self, n):
+            r = self._try(n)
+            if r is not None:
+                return r
+            self.generic_visit(n)
+            return n
+
+        def visit_Lambda(self, n):
+            return n
+    return ast.fix_missing_locations(T().visit(copy.deepcopy(node)))
+
+
 def subst(node, env):
     if node is None:
         return None
@@ -128,21 +153,88 @@ def _assigned_names(stmts):
 
 
 class Explorer:
-    def __init__(self, func, max_paths=512, scope=None, fold_tests=True, inline=None):
+    def __init__(self, func, max_paths=512, scope=None, fold_tests=True, inline=None, env=None, depth=0):
+        """inline: callable(call node, func) -> model.Func or None; calls for which it
+        returns a Func are summarised in place (statement-level, depth <= 2)."""
         self.func = func
         self.max_paths = max_paths
         self.scope = scope or Scope.of(func)
         self.fold_tests = fold_tests
         self.truncated = False
+        self.inline = inline
+        self.init_env = env or {}
+        self.depth = depth
+        # local single-expression helper functions are inlined at expression level
+        self.local_fns = {}
+        for st in func.node.body:
+            if isinstance(st, ast.FunctionDef):
+                body = [b for b in st.body if not (isinstance(b, ast.Expr) and isinstance(b.value, ast.Constant))]
+                if len(body) == 1 and isinstance(body[0], ast.Return) and body[0].value is not None and \
+                        not st.args.vararg and not st.args.kwarg and not st.args.kwonlyargs:
+                    self.local_fns[st.name] = st
+
+    def _inline_expr(self, node):
+        if not self.local_fns or node is None:
+            return node
+        fns = self.local_fns
+
+        class T(ast.NodeTransformer):
+            def visit_Call(self, n):
+                self.generic_visit(n)
+                if isinstance(n.func, ast.Name) and n.func.id in fns and not n.keywords and \
+                        len(n.args) == len(fns[n.func.id].args.args):
+                    fd = fns[n.func.id]
+                    body = [b for b in fd.body if isinstance(b, ast.Return)][0]
+                    return subst(body.value, {a.arg: v for a, v in zip(fd.args.args, n.args)})
+                return n
+
+            def visit_Lambda(self, n):
+                return n
+        return ast.fix_missing_locations(T().visit(node))
 
     def run(self):
         p = Path()
+        p.env.update(self.init_env)
         done = []
         live = self._block(self.func.node.body, [p], done)
         for q in live:
             q.outcome = ('fall', None)
             done.append(q)
         return done
+
+    def _inline_stmt(self, callee, call, p, done):
+        params = [a.arg for a in callee.node.args.args]
+        if params and params[0] in ('self', 'cls'):
+            params = params[1:]
+        env = {k: v for k, v in p.env.items() if '.' in k or '[' in k}
+        dflt = callee.defaults()
+        for i, name in enumerate(params):
+            if i < len(call.args):
+                env[name] = resolve_consts(call.args[i], self.scope)
+            else:
+                kw = [k.value for k in call.keywords if k.arg == name]
+                if kw:
+                    env[name] = resolve_consts(kw[0], self.scope)
+                elif name in dflt:
+                    env[name] = resolve_consts(dflt[name], Scope.of(callee))
+        sub = Explorer(callee, self.max_paths, Scope.of(callee), self.fold_tests, self.inline, env, self.depth + 1)
+        outs = []
+        for q in sub.run():
+            if q.outcome[0] == 'raise':
+                r = p.fork()
+                r.conds += q.conds
+                r.events += q.events
+                r.outcome = q.outcome
+                done.append(r)
+                continue
+            r = p.fork()
+            r.conds += q.conds
+            r.events += q.events
+            for k, v in q.env.items():
+                if '.' in k or '[' in k:
+                    r.env[k] = v
+            outs.append(r)
+        return outs
 
     # -- statements ---------------------------------------------------------
     def _block(self, stmts, paths, done):
@@ -221,7 +313,7 @@ class Explorer:
     def _stmt(self, st, p, done):
         env = p.env
         if isinstance(st, ast.Assign):
-            v = subst(st.value, env)
+            v = self._inline_expr(subst(st.value, env))
             self._record_calls(v, st.value, p, st)
             for t in st.targets:
                 self._bind(t, v, p, st)
@@ -239,10 +331,13 @@ class Explorer:
             self._bind(st.target, ast.BinOp(left=cur, op=st.op, right=v), p, st)
             return [p]
         if isinstance(st, ast.Expr):
-            v = subst(st.value, env)
+            v = self._inline_expr(subst(st.value, env))
             self._record_calls(v, st.value, p, st)
             if isinstance(st.value, ast.Call):
                 self._mutating_call(st.value, p)
+                callee = self.inline(st.value, self.func) if (self.inline and self.depth < 2) else None
+                if callee is not None:
+                    return self._inline_stmt(callee, v, p, done)
             return [p]
         if isinstance(st, ast.Return):
             v = subst(st.value, env) if st.value is not None else None
